@@ -83,7 +83,7 @@ def judge(model, step, resp):
         return probs, v
     if op == "remove_fully":
         before = model.clone()
-        allowed = model.remove_fully(req["key"])
+        allowed = model.remove_fully(req["key"], v)
         if v not in allowed:
             probs.append(f"remove_fully({req['key']!r}) gave {ev.brief(resp)}, allowed {sorted(allowed)}")
             if v == "Ok":
